@@ -101,6 +101,35 @@ func eachFault(orig []byte, boundary, minLen int, ext [][]byte, f func(fault)) {
 	}
 }
 
+// eachTagPair modifies TWO bytes of the 16-byte tag at tagStart at once, for every pair of tag
+// byte positions (120) x 10 patterns whose differences cancel in a comparison that sums or
+// otherwise combines per-byte / per-word differences instead of OR-ing them: the same single bit
+// flipped in both bytes (8), both bytes complemented, and +1 / -1 (arithmetic, mod 256).
+func eachTagPair(orig []byte, tagStart int, f func(fault)) {
+	if tagStart < 0 || tagStart+16 > len(orig) {
+		return
+	}
+	for i := 0; i < 16; i++ {
+		for j := i + 1; j < 16; j++ {
+			for pat := 0; pat < 10; pat++ {
+				m := append([]byte(nil), orig...)
+				switch {
+				case pat < 8:
+					m[tagStart+i] ^= 1 << pat
+					m[tagStart+j] ^= 1 << pat
+				case pat == 8:
+					m[tagStart+i] ^= 0xFF
+					m[tagStart+j] ^= 0xFF
+				default:
+					m[tagStart+i]++
+					m[tagStart+j]--
+				}
+				f(fault{fmt.Sprintf("tag-pair/pat%d", pat), i*16 + j, m})
+			}
+		}
+	}
+}
+
 func eachBitflip(orig []byte, skip map[int]bool, f func(fault)) {
 	for i := range orig {
 		for b := 0; b < 8; b++ {
@@ -156,7 +185,7 @@ func lens(c *vf.Ctx, extra ...int) []int {
 func run(c *vf.Ctx) {
 	c.Rule("fault enumeration on genuine sealed messages: targets {ChaCha20-Poly1305, XChaCha20-Poly1305} x path{asm,generic}, secretbox.Open, box.Open, box.OpenAfterPrecomputation, box.OpenAnonymous; " +
 		"message lengths {0,1,15,16,17,63,64,65,255,256,257,1024} (NaCl also 31,32,33; thorough: every 0..300); faults = EVERY single-bit flip of sealed output / nonce / AD / key, truncation by 1..32 at either end, " +
-		"extension by 1..32 at either end (3 byte classes), every length 0..15, 2- and 4-byte overwrites at 8 positions x 3 patterns, AD<->ciphertext boundary shifts by 1..16, AD truncation/extension; " +
+		"extension by 1..32 at either end (3 byte classes), every length 0..15, 2- and 4-byte overwrites at 8 positions x 3 patterns, EVERY pair of tag bytes (120) modified together x 10 cancelling patterns (same bit flipped in both, both complemented, +1/-1), AD<->ciphertext boundary shifts by 1..16, AD truncation/extension; " +
 		"for the width-truncation AD lengths {0,1,12,13,14,16}+{256,512,768,4096,65536}, 255, 257, 511, 513, 65535, 65537 (plaintext lengths 0,1,16,65,257): a bit flip and a substituted byte in EACH 16-byte block of the AD (64 KiB class in quick: every block for lengths = 13 or 16 mod 256, else every 16th), " +
 		"same-length AD agreeing on the first 13/16/32 bytes, AD cut to its length mod 256, +-1/16/256 bytes, every tag bit; " +
 		"plus the STEERED-ACCUMULATOR family (messages crafted with math/big so that the AEAD code's own Poly1305 accumulator has chosen limb values before the lengths block and before the final reduction, 15 lengths x AD {0,1,13,16,17} x both nonce sizes): " +
@@ -452,6 +481,7 @@ func aeadPart(c *vf.Ctx) {
 				return
 			}
 			eachFault(sealed, u.n, 16, ext, func(ft fault) { try("sealed", ft, aead, nonce, ft.data, ad) })
+			eachTagPair(sealed, len(sealed)-16, func(ft fault) { try("sealed", ft, aead, nonce, ft.data, ad) })
 			eachBitflip(nonce, nil, func(ft fault) { try("nonce", ft, aead, ft.data, sealed, ad) })
 			eachBitflip(key, nil, func(ft fault) {
 				k2, err := newAEAD(va.mk, ft.data)
@@ -702,6 +732,7 @@ func naclPart(c *vf.Ctx) {
 		withBox := func(b []byte) *fields { f := good; f.boxed = b; return &f }
 		// for OpenAnonymous the box starts with the 32-byte ephemeral public key: boundary = start of the tag
 		eachFault(good.boxed, overhead, overhead, ext, func(ft fault) { try("box", ft, withBox(ft.data)) })
+		eachTagPair(good.boxed, overhead-16, func(ft fault) { try("box", ft, withBox(ft.data)) })
 		if tgt != "box.OpenAnonymous" {
 			eachBitflip(good.nonce[:], nil, func(ft fault) { f := good; copy(f.nonce[:], ft.data); try("nonce", ft, &f) })
 		}
